@@ -130,7 +130,7 @@ def gen_case(rng, arm, tier, k=0):
             if base["kind"] in ("knn", "unsup", "unsup_prop") and rng.random() < 0.3:
                 # public calls on the model's subgraph between saves: whatever state results,
                 # a save/load must reproduce it
-                ops.append(["poke", rng.choice(("create_arcs", "destroy_arcs", "eliminate_maxima_height", "create_arcs")), rng.randint(1, 4)])
+                ops.append(["poke", rng.choice(("create_arcs", "destroy_arcs", "eliminate_maxima_height", "create_arcs", "calculate_pdf", "mark_nodes")), rng.randint(1, 4)])
             elif rng.random() < 0.15:
                 # the metric function is replaced through the public setter (name and function disagree)
                 ops.append(["set_fn", rng.randrange(47)])
@@ -483,6 +483,12 @@ def run_case(case):
                         sg.create_arcs(kk, m.distance_fn, m.pre_computed_distance, m.pre_distances)
                     elif op[1] == "destroy_arcs":
                         sg.destroy_arcs()
+                    elif op[1] == "mark_nodes":
+                        sg.mark_nodes(op[2] % len(sg.nodes))
+                    elif op[1] == "calculate_pdf":
+                        kk = max(1, min(op[2], len(sg.nodes) - 1))
+                        sg.create_arcs(kk, m.distance_fn, m.pre_computed_distance, m.pre_distances)
+                        sg.calculate_pdf(kk, m.distance_fn, m.pre_computed_distance, m.pre_distances)
                     else:
                         sg.eliminate_maxima_height(float(op[2]))
                     bump(out.probes, "subgraph_poked_between_saves")
